@@ -404,6 +404,24 @@ func TestFidRef(t *testing.T) {
 				defer c.Stop()
 				s.ch = c.NewConn()
 				s.ch.Dotu = fc.Dotu
+				if b.ID%3 == 1 {
+					// a Tversion that is refused (msize below a header) changes nothing: the limits of the session stay
+					tv := wire.Encode(&wire.Msg{Type: wire.Tversion, Tag: wire.NOTAG, Msize: 23, Version: "9P2000.u"}, false)
+					if fc.SlowPost {
+						s.pollFrame()
+						c.SendRaw(s.ch, tv, nil)
+						c.Wait()
+						fr := s.pollFrame()
+						for fr == nil && s.releasePosts() {
+							fr = s.pollFrame()
+						}
+					} else {
+						c.SendRaw(s.ch, tv, nil)
+						s.ch.Writing = true
+						c.RecvFrame(s.ch)
+						c.Wait()
+					}
+				}
 				var other *ConnH
 				if fc.TwoConn {
 					other = c.NewConn()
